@@ -558,6 +558,37 @@ class C16(VerdictProp):
                    "them in the scripted order"]
 
 
+class C10(Prop):
+    id = "C10"
+    n_quick = 600
+    n_thorough = 12000
+    batch = 1500
+    required_theorems = ["C10_names", "C10_prod_frozen", "C10_failed_load_recovers", "C10_prod_all_succeed", "C10_debug_no_hiding", "C10_naming"]
+    rule = ("random directory trees below template/page (nested names, a prefix-related family a, a/b, a/b/c, ab, partial folders, decoy files with other suffixes and outside "
+            "the page directory) in both modes; half of the cases are sequential histories (explicit loads, renders of existing and missing names, file edits, broken files, "
+            "repairs, removals), half are 2-3 (thorough: 2-4) concurrent first renders (plus an explicit load in production mode) on a cold engine, interleaved at the verif yield "
+            "points under a random schedule. Non-trivial: >= 3 operations / threads; distinct by case.")
+    assumptions = ["OS file-system semantics are assumed; the scheduler treats a thread that does not reach a yield point within 3 ms as blocked on the engine's lock "
+                   "(this only affects which interleavings are explored, never the verdict)"]
+
+    def compare(self, case, impl, model, spec):
+        if not isinstance(impl, dict) or impl.get("class") != "ok":
+            return False, False, "harness failure: %r" % (impl,)
+        if case["kind"] == "loadseq":
+            ok = impl.get("results") == (model or {}).get("results")
+            return ok, ok, "%s: impl=%s model=%s ops=%s" % (case["bucket"], impl.get("results"), (model or {}).get("results"), json.dumps(case["ops"])[:500])
+        res = impl.get("results", [])
+        allowed = (model or {}).get("allowed", [])
+        ok = (not impl.get("deadlock")) and len(res) == len(allowed) and all(r in a for r, a in zip(res, allowed))
+        return ok, ok, "%s: results=%s allowed=%s threads=%s trace=%s" % (case["bucket"], res, allowed, json.dumps(case["threads"]), impl.get("trace"))
+
+    def nontrivial(self, case, impl):
+        return case.get("nops", 0) >= 3
+
+    def bucket(self, case, impl):
+        return case.get("bucket")
+
+
 WS = " \t\r\n"
 
 
@@ -616,4 +647,4 @@ class C13(Prop):
         return "%s/%s" % (case.get("from"), out_of((impl or {}).get("prod"))[0])
 
 
-PROPS = {p.id: p for p in [C01(), C02(), C03(), C04(), C05(), C06(), C07(), C09(), C11(), C12(), C13(), C16(), C17(), C18(), C20()]}
+PROPS = {p.id: p for p in [C01(), C02(), C03(), C04(), C05(), C06(), C07(), C09(), C10(), C11(), C12(), C13(), C16(), C17(), C18(), C20()]}
